@@ -407,9 +407,15 @@ def K_recstart(cg, nt):
 
 
 # ----------------------------------------------------------------------------------------------
-def property_at(cg, nt, w, o):
-    """evaluate C10 at one input on the implementation's outcome. None = holds, else text"""
-    member = in_lang(cg, nt, w) if nt in cg else False
+def property_at(cg, nt, w, o, tabs=None):
+    """evaluate C10 at one input on the implementation's outcome. None = holds, else text.
+    tabs: optional cache  w -> lang_table(cg, w)  shared by the cases of one grammar"""
+    if tabs is None:
+        member = in_lang(cg, nt, w) if nt in cg else False
+    else:
+        if w not in tabs:
+            tabs[w] = lang_table(cg, w)
+        member = (nt, 0, len(w)) in tabs[w]
     if o[0] == "raise":
         if o[1] != "SyntaxErr":
             return f"raises {o[1]} (neither a tree nor SyntaxError); member={member}"
@@ -502,19 +508,57 @@ def run(run):
     FX = f"{g_bool(flags['fxA'])} {g_bool(flags['fxB'])}"
 
     grammars = build_cases(run, rng, thorough)
-    gdefs, smeta, guard_case = [], [], []
     hist = {"accept": 0, "SyntaxErr": 0, "other_exn": 0, "ambiguous(>1 tree)": 0, "eps_grammars": 0,
             "multistart_grammars": 0, "recstart_grammars": 0, "solver_mode": 0, "parse_on_mode": 0,
             "list_grammars": 0, "corpus_grammars": 0, "trees_checked_yield": 0,
             "solver_nt_skipped_cyclic_after_override": 0, "fuel_capped_grammars": 0,
             "theorem_guard_evaluated": 0, "theorem_guard_false_cyclic_or_capped": 0}
-    maxlen_seen = 0
+    state = {"maxlen_seen": 0, "coq_seconds": 0.0, "batches": 0, "max_shard_bytes": 0}
     prop_failures = []
-    for gi, (g, opts) in enumerate(grammars):
+    disagreements, spec_fail_coq, forest_fail, guard_fail, guard_unexplained = [], [], [], [], []
+
+    ok_def = (
+        "fun kc : nat * nat * nat => let '(kind, gi, i) := kc in let '(G, FUEL, LFUEL, CS) := nth gi GS GDFLT in "
+        "let '(mode, nt, w, r) := nth i CS DFLT in "
+        "match kind with "
+        "| 0 => res_eqb (list_eqb tree_eqb) r "
+        f"   (match mode with 0 => earley_parse {FX} FUEL G START START w 8 "
+        f"    | 1 => earley_parse {FX} FUEL G START nt w 8 "
+        f"    | _ => match solver_parse {FX} FUEL G nt w with Ok t => Ok [t] | Raise e => Raise e end end) "
+        "| 1 => match r with "
+        "       | Ok ts => negb (match ts with [] => true | _ => false end) && "
+        "                  forallb (fun t => wf_treeb G t && closedb t && str_eqb (lbl t) nt && str_eqb (yield t) w) ts "
+        "       | Raise SyntaxErr => true | Raise _ => false end "
+        "| 2 => match r with "
+        "       | Ok _ => if Lb LFUEL G nt w then true else Lb (Nat.min 18 (length G * (length w + 1) + 2)) G nt w "
+        "       | _ => negb (Lb LFUEL G nt w) end "
+        f"| 3 => match chart_of {g_bool(flags['fxA'])} FUEL (cgram G START) nt w with "
+        "       | Ok ch => forest_totalb (cgram G START) w ch | Raise _ => true end "
+        "| _ => let G' := match mode with 2 => specialise G nt | _ => G end in "
+        "       acyclicb (cgram G' START) && Nat.leb (fuel_bound (cgram G' START) (length w)) FUEL end")
+
+    # ------------------------------------------------------------------------------------------
+    # STREAMING: grammars are processed in batches (quick: one batch; thorough: 32 grammars);
+    # per batch: run the implementation, write the shards, evaluate them in Coq (in a worker
+    # thread while the next batch is generated), keep only counters, samples and failures.
+    # ------------------------------------------------------------------------------------------
+    def gen_grammar(gi, g, opts):
         cg = {k: [list(a) for a in v] for k, v in canonical(g).items()}
         alpha = (opts.get("alphabet") or alphabet(cg))[:3]
         Ng = opts["maxlen"]
-        if opts.get("list") and len(alpha) == 3 and not thorough:
+        if thorough:
+            # bounded volume per grammar: ALL strings while their cumulative number stays <= 400 (3 letters: length <= 5,
+            # 2 letters: <= 7), then a random subset of 250 strings of the next length (<= 7)
+            words, n, tot = [""], 0, 1
+            while n < 7 and alpha and tot + len(alpha) ** (n + 1) <= 400:
+                n += 1
+                words += ["".join(p) for p in itertools.product(alpha, repeat=n)]
+                tot += len(alpha) ** n
+            if alpha and n < 7:
+                pool = ["".join(p) for p in itertools.product(alpha, repeat=n + 1)]
+                words += sorted(rng.sample(pool, min(250, len(pool))))
+            Ng = max(Ng, n)
+        elif opts.get("list") and len(alpha) == 3:
             # all strings up to length 5 over the two most important letters (separator first ... the
             # alphabet is in order of first occurrence), up to length 4 over all three
             words = [""]
@@ -528,12 +572,13 @@ def run(run):
                 words += ["".join(p) for p in itertools.product(alpha, repeat=n)]
         words += ["#", alpha[0] + "#" if alpha else "##", "#" + alpha[0] if alpha else "#a"]
         # members of the language longer than the exhaustive bound (random derivations), corpus inputs
-        for x in sample_members(cg, rng, 6, Ng + 1, Ng + 3) + list(opts.get("extra", [])):
-            if x not in words:
-                words.append(x)
+        wset = set(words)
+        for x in sample_members(cg, rng, 6, Ng + 1, min(Ng + 3, 8)) + list(opts.get("extra", [])):
+            if x not in wset:
+                words.append(x); wset.add(x)
         hist["list_grammars"] += bool(opts.get("list"))
         hist["corpus_grammars"] += "corpus" in opts
-        maxlen_seen = max(maxlen_seen, max(len(x) for x in words))
+        state["maxlen_seen"] = max(state["maxlen_seen"], max(len(x) for x in words))
         if any("" in v for v in g.values()):
             hist["eps_grammars"] += 1
         hist["multistart_grammars"] += K_multistart(cg, START)
@@ -551,6 +596,7 @@ def run(run):
                 solver_skip.add(nt)
                 hist["solver_nt_skipped_cyclic_after_override"] += 1
         cases = []     # (mode, nt, w, outcome)
+        tabs = {}      # w -> membership table of cg (python reference), shared by the cases of this grammar
         for w in words:
             cases.append((0, START, w, impl_parse(g, w)))
             if len(w) <= (3 if thorough else 2):
@@ -581,90 +627,120 @@ def run(run):
             lits.append(f"({mode}%nat, {g_str(nt)}, {g_str(w)}, {g_outcome(o)})")
             # direct evaluation of the property with the python reference of the spec
             sg = cg
-            why = property_at(sg, nt, w, o)
+            why = property_at(sg, nt, w, o, tabs)
             if why:
                 prop_failures.append({"grammar": g, "mode": mode, "nonterminal": nt, "input": w,
                                       "impl": [o[0], [jt(t) for t in o[1]] if o[0] == "ok" else o[1]],
                                       "why": why, "_cg": cg, "_o": o})
         n_max = max(len(w) for w in words)
         hist["fuel_capped_grammars"] += fuel_uncapped(cg, n_max) > FUEL_CAP
-        gdefs.append((g_grammar(cg), fuel_for(cg, n_max), min(7, len(cg) + 3), lits))
-        smeta.append((g, cg, cases))
-        gc = {}
+        gc_ = {}
         for ci, (mode, nt, w, o) in enumerate(cases):
-            if (mode, nt) not in gc or len(w) > len(cases[gc[(mode, nt)]][2]):
-                gc[(mode, nt)] = ci
-        guard_case.append(gc)
+            if (mode, nt) not in gc_ or len(w) > len(cases[gc_[(mode, nt)]][2]):
+                gc_[(mode, nt)] = ci
+        hist["theorem_guard_evaluated"] += len(gc_)
         if gi in (0, 2, 21):
             k = next((c for c in cases if c[3][0] == "ok" and len(c[2]) >= 2), cases[0])
             run.sample({"grammar": g, "mode": ["parse", "parse_on", "ISLaSolver.parse"][k[0]], "nonterminal": k[1],
                         "input": k[2], "impl": [jt(t) for t in k[3][1]] if k[3][0] == "ok" else k[3][1],
                         "cases_for_this_grammar": len(cases)})
-    # group the grammars into <= NSHARD coqc runs (start-up of coqc dominates the evaluation)
-    NSH = 16 if thorough else 8
-    shards, shard_idx = [], []
-    for k in range(NSH):
-        members = list(range(k, len(gdefs), NSH))
-        if not members:
-            continue
-        defs = "Definition GS : list (grammar * nat * nat * list (nat * str * str * res (list tree))) := [\n" + ";\n".join(
-            f"({gdefs[gi][0]}, {g_nat(gdefs[gi][1])}, {g_nat(gdefs[gi][2])}, [\n" + ";\n".join(gdefs[gi][3]) + "\n])"
-            for gi in members) + "\n].\n"
-        defs += ("Definition DFLT : nat * str * str * res (list tree) := (0%nat, [], [], Raise OtherErr).\n"
-                 "Definition GDFLT : grammar * nat * nat * list (nat * str * str * res (list tree)) := ([], 0%nat, 0%nat, []).\n")
-        idx_cases, back = [], []
-        for li, gi in enumerate(members):
-            cases = smeta[gi][2]
-            for ci, (mode, nt, w, o) in enumerate(cases):
-                kinds = [0, 1] + ([2] if mode == 0 and len(w) <= 2 else []) + ([3] if mode == 0 else [])
-                # kind 4: the hypotheses of C10_parse_complete / C10_parse_total that depend on the case
-                # (acyclicb, fuel_bound <= FUEL) evaluated in Coq on the longest input of every
-                # (entry point, nonterminal) of the grammar
-                if ci == guard_case[gi].get((mode, nt)):
-                    kinds.append(4)
-                for kind in kinds:
-                    idx_cases.append(f"({kind}%nat, {li}%nat, {ci}%nat)")
-                    back.append((kind, gi, ci))
-        shards.append((defs, idx_cases))
-        shard_idx.append(back)
+        del solver
+        return {"g": g, "cg": cg, "cases": cases, "n_max": n_max, "guard": gc_,
+                "gdef": (g_grammar(cg), fuel_for(cg, n_max), min(7, len(cg) + 3), lits)}
+
+    def build_shards(metas, nsh):
+        shards, shard_idx = [], []
+        for k in range(nsh):
+            members = list(range(k, len(metas), nsh))
+            if not members:
+                continue
+            defs = "Definition GS : list (grammar * nat * nat * list (nat * str * str * res (list tree))) := [\n" + ";\n".join(
+                f"({metas[mi]['gdef'][0]}, {g_nat(metas[mi]['gdef'][1])}, {g_nat(metas[mi]['gdef'][2])}, [\n"
+                + ";\n".join(metas[mi]['gdef'][3]) + "\n])" for mi in members) + "\n].\n"
+            defs += ("Definition DFLT : nat * str * str * res (list tree) := (0%nat, [], [], Raise OtherErr).\n"
+                     "Definition GDFLT : grammar * nat * nat * list (nat * str * str * res (list tree)) := ([], 0%nat, 0%nat, []).\n")
+            state["max_shard_bytes"] = max(state["max_shard_bytes"], len(defs))
+            idx_cases, back = [], []
+            for li, mi in enumerate(members):
+                m = metas[mi]
+                for ci, (mode, nt, w, o) in enumerate(m["cases"]):
+                    kinds = [0, 1] + ([2] if mode == 0 and len(w) <= 2 else []) + ([3] if mode == 0 else [])
+                    # kind 4: the hypotheses of C10_parse_complete / C10_parse_total that depend on the case
+                    # (acyclicb, fuel_bound <= FUEL) evaluated in Coq on the longest input of every
+                    # (entry point, nonterminal) of the grammar
+                    if ci == m["guard"].get((mode, nt)):
+                        kinds.append(4)
+                    for kind in kinds:
+                        idx_cases.append(f"({kind}%nat, {li}%nat, {ci}%nat)")
+                        back.append((kind, mi, ci))
+            shards.append((defs, idx_cases))
+            shard_idx.append(back)
+        for m in metas:
+            m["gdef"] = None      # the literals live on only inside `shards`
+        return shards, shard_idx
+
+    def absorb(metas, shard_idx, bad):
+        for (k, i) in bad:
+            kind, mi, ci = shard_idx[k][i]
+            m = metas[mi]
+            g, cg = m["g"], m["cg"]
+            mode, nt, w, o = m["cases"][ci]
+            rec = {"grammar": g, "mode": mode, "nonterminal": nt, "input": w,
+                   "impl": [o[0], [jt(t) for t in o[1]] if o[0] == "ok" else o[1]], "_cg": cg, "_o": o, "coq_kind": kind}
+            if kind == 4:
+                # a false guard is expected only for a grammar with a cyclic unit/nullable derivation
+                # (corpus witnesses) or a capped fuel
+                eff = specialised(cg, nt) if mode == 2 else cg
+                if infinitely_ambiguous(eff) or fuel_uncapped(cg, m["n_max"]) > FUEL_CAP:
+                    hist["theorem_guard_false_cyclic_or_capped"] += 1
+                else:
+                    guard_unexplained.append({k2: v for k2, v in rec.items() if not k2.startswith("_")})
+                continue
+            (disagreements if kind == 0 else forest_fail if kind == 3 else spec_fail_coq).append(rec)
+
+    import gc
+    import concurrent.futures as cf_
+    BATCH = 32 if thorough else max(1, len(grammars))
+    pending = None      # (future, metas, shard_idx)
+    coq_error = None
+
+    def collect(p):
+        nonlocal coq_error
+        fut, metas, shard_idx = p
+        try:
+            bad, dt = fut.result()
+            state["coq_seconds"] += dt
+            absorb(metas, shard_idx, bad)
+        except RuntimeError as e:
+            coq_error = coq_error or str(e)[-2000:]
+
+    with cf_.ThreadPoolExecutor(max_workers=1) as pool:
+        for b0 in range(0, len(grammars), BATCH):
+            metas = [gen_grammar(gi, g, opts) for gi, (g, opts) in
+                     list(enumerate(grammars))[b0:b0 + BATCH]]
+            shards, shard_idx = build_shards(metas, len(metas) if thorough else 8)
+            if pending is not None:
+                collect(pending)
+                pending = None
+                gc.collect()
+            fut = pool.submit(lib.coq_run_shards, f"c10b{state['batches']}",
+                              "Earley EarleyTrees EarleyFuel EarleyAcyclic", ok_def, shards)
+            del shards
+            pending = (fut, metas, shard_idx)
+            state["batches"] += 1
+        if pending is not None:
+            collect(pending)
+            pending = None
+    gc.collect()
     run.cov["grammars"] = len(grammars)
     run.cov["histogram"] = hist
-    run.cov["max_string_length"] = maxlen_seen
-
-    ok_def = (
-        "fun kc : nat * nat * nat => let '(kind, gi, i) := kc in let '(G, FUEL, LFUEL, CS) := nth gi GS GDFLT in "
-        "let '(mode, nt, w, r) := nth i CS DFLT in "
-        "match kind with "
-        "| 0 => res_eqb (list_eqb tree_eqb) r "
-        f"   (match mode with 0 => earley_parse {FX} FUEL G START START w 8 "
-        f"    | 1 => earley_parse {FX} FUEL G START nt w 8 "
-        f"    | _ => match solver_parse {FX} FUEL G nt w with Ok t => Ok [t] | Raise e => Raise e end end) "
-        "| 1 => match r with "
-        "       | Ok ts => negb (match ts with [] => true | _ => false end) && "
-        "                  forallb (fun t => wf_treeb G t && closedb t && str_eqb (lbl t) nt && str_eqb (yield t) w) ts "
-        "       | Raise SyntaxErr => true | Raise _ => false end "
-        "| 2 => match r with "
-        "       | Ok _ => if Lb LFUEL G nt w then true else Lb (Nat.min 18 (length G * (length w + 1) + 2)) G nt w "
-        "       | _ => negb (Lb LFUEL G nt w) end "
-        f"| 3 => match chart_of {g_bool(flags['fxA'])} FUEL (cgram G START) nt w with "
-        "       | Ok ch => forest_totalb (cgram G START) w ch | Raise _ => true end "
-        "| _ => let G' := match mode with 2 => specialise G nt | _ => G end in "
-        "       acyclicb (cgram G' START) && Nat.leb (fuel_bound (cgram G' START) (length w)) FUEL end")
-    disagreements, spec_fail_coq, forest_fail, guard_fail = [], [], [], []
-    try:
-        bad, dt = lib.coq_run_shards("c10", "Earley EarleyTrees EarleyFuel EarleyAcyclic", ok_def, shards)
-        run.cov["coq_seconds"] = round(dt, 1)
-        for (k, i) in bad:
-            kind, gi, ci = shard_idx[k][i]
-            g, cg, cases = smeta[gi]
-            mode, nt, w, o = cases[ci]
-            rec = {"grammar": g, "mode": mode, "nonterminal": nt, "input": w,
-                   "impl": [o[0], [jt(t) for t in o[1]] if o[0] == "ok" else o[1]], "_cg": cg, "_o": o}
-            (disagreements if kind == 0 else forest_fail if kind == 3 else guard_fail if kind == 4
-             else spec_fail_coq).append(dict(rec, coq_kind=kind))
-    except RuntimeError as e:
+    run.cov["max_string_length"] = state["maxlen_seen"]
+    run.cov["coq_seconds"] = round(state["coq_seconds"], 1)
+    run.cov["batches"] = state["batches"]
+    run.cov["max_shard_literal_bytes"] = state["max_shard_bytes"]
+    if coq_error:
         run.violation({"kind": "correspondence-not-evaluable", "obligation": "Earley.v cases",
-                       "error": str(e)[-2000:]}, found_input=False)
+                       "error": coq_error}, found_input=False)
 
     # ---- classify ----
     run.cov["disagreements_checked"] = len(disagreements)
@@ -707,15 +783,6 @@ def run(run):
                       found_input=False)
     # hypotheses of C10_parse_complete / C10_parse_total on the cases of the run: a false guard is expected only
     # for a grammar with a cyclic unit/nullable derivation (corpus witnesses) or a capped fuel
-    hist["theorem_guard_evaluated"] = sum(len(gc) for gc in guard_case)
-    guard_unexplained = []
-    for d in guard_fail:
-        eff = specialised(d["_cg"], d["nonterminal"]) if d["mode"] == 2 else d["_cg"]
-        n_max = max(len(c[2]) for c in next(m[2] for m in smeta if m[1] is d["_cg"]))
-        if infinitely_ambiguous(eff) or fuel_uncapped(d["_cg"], n_max) > FUEL_CAP:
-            hist["theorem_guard_false_cyclic_or_capped"] += 1
-        else:
-            guard_unexplained.append({k: v for k, v in d.items() if not k.startswith("_")})
     if guard_unexplained:
         run.violation({"kind": "guard acyclicb / fuel_bound of C10_parse_complete is false on a case that the harness "
                                "considers acyclic and sufficiently fuelled",
